@@ -26,6 +26,7 @@ handler (data right behind / ahead of the response).
 from __future__ import annotations
 
 import asyncio
+import contextlib
 import hashlib
 import itertools
 import os
@@ -90,10 +91,14 @@ def size_alphabet(peer_mtu, peer_mps):
 class Tap:
     """Wraps the L2CAP send / receive seams of both hosts; feeds the monitor; applies the CID shim."""
 
-    def __init__(self, w, mon, shim):
+    def __init__(self, w, mon, shim, absorb_data_from=()):
         self.mon = mon
         self.shim_side = {'off': None, 'client': 0, 'server': 1}[shim]
         self.harness_errors = []
+        # sides whose data frames are seen (and accounted) by the monitor but not carried any further: a wire
+        # short-circuit for experiments that only ask how many frames a sender is able to emit
+        self.absorb = set(absorb_data_from)
+        self.absorbed = 0
         for side in (0, 1):
             self._wrap(w.hosts[side], side)
 
@@ -105,6 +110,11 @@ class Tap:
 
         def send_acl_sdu(connection_handle, sdu):
             sdu = bytes(sdu)
+            if side in self.absorb and len(sdu) >= 4 and (sdu[2] | (sdu[3] << 8)) >= wire.DYN_FIRST:
+                mon.sent(side, sdu)
+                mon.inflight[1 - side].pop()  # never delivered
+                self.absorbed += 1
+                return None
             if shim is None:
                 mon.sent(side, sdu)
                 return real_send(connection_handle, sdu)
@@ -351,6 +361,207 @@ def run_case(case, prefix=None, fp=None, want_obs=False):
 
 
 # ---------------------------------------------------------------------------
+# credit arithmetic at the top of the 16-bit range
+# ---------------------------------------------------------------------------
+TOP_BALANCES = [0, 1, 2, 32766, 32767, 32768, 65533, 65534, 65535]
+TOP_TOTALS = [65533, 65534, 65535]
+TOP_RX = (65535, 23)  # receiver's (mtu, mps) in these runs: one written burst becomes 2850-frame SDUs
+TOP_FPS = (TOP_RX[0] + 2 + TOP_RX[1] - 1) // TOP_RX[1]  # frames per full SDU
+
+
+def bytes_for_frames(n):
+    """Size of ONE write that the sender must cut into exactly n frames (full-MTU SDUs, then a shorter one)."""
+    full, r = divmod(n, TOP_FPS)
+    return full * TOP_RX[0] + (r * TOP_RX[1] - 2 if r else 0)
+
+
+@contextlib.contextmanager
+def open_pair(kind, c, s, acl, absorb=()):
+    """World + LE connection + one channel (LE CoC or enhanced x1) with the monitor and tap installed.
+    Yields a dict, or raises SetupFailed."""
+    with World(2, controller_attrs={0: {'le_acl_data_packet_length': acl}, 1: {'le_acl_data_packet_length': acl}}) as w:
+        w.power_on()
+        c_conn, p_conn = w.connect_le()
+        mon = wire.Monitor()
+        tap = Tap(w, mon, 'off', absorb_data_from=absorb)
+        server_chans = []
+        w.devices[1].create_l2cap_server(mk_spec(s, PSM), server_chans.append)
+
+        async def go():
+            if kind == 'coc':
+                return await c_conn.create_l2cap_channel(mk_spec(c, PSM))
+            return (await w.devices[0].l2cap_channel_manager.create_enhanced_credit_based_channels(c_conn, mk_spec(c, PSM), 1))[0]
+
+        cch = w.run(go(), horizon=w.loop.time() + 5.0)
+        w.settle()
+        yield {'w': w, 'mon': mon, 'tap': tap, 'conns': [c_conn, p_conn], 'chans': [cch, server_chans[0]]}
+
+
+def run_top(case):
+    """case: {'kind', 'sender': 0|1, 'I': initial credits, 'c': balance when the grant arrives, 'g': grant,
+    'pending': sender has data queued (only with c == 0)}.  The sender's data frames are absorbed behind the
+    monitor, so the peer's real channel stays passive and the only grants are the initial credits and the injected
+    LE Flow Control Credit packet, which travels the real path (peer host -> link -> sender's host -> ChannelManager)."""
+    kind, snd, I, c, g = case['kind'], case['sender'], case['I'], case['c'], case['g']
+    pending = case.get('pending', False)
+    rcv = 1 - snd
+    specs = [DEF, DEF]
+    specs[rcv] = (TOP_RX[0], TOP_RX[1], I)
+    sig = {'kind': 'le_coc' if kind == 'coc' else 'enhanced', 'sender': 'client' if snd == 0 else 'server'}
+    viol = []
+    with open_pair(kind, specs[0], specs[1], 251, absorb=(snd,)) as p:
+        w, mon = p['w'], p['mon']
+        ch = p['chans'][snd]
+        p['chans'][rcv].sink = lambda b: None
+        mch = mon.channel(0, 0)
+        dr = mch.dirs[snd]
+        own_cid_of_receiver = mch.scid if rcv == 1 else mch.ccid
+        T = c + g
+        extra = 3 if pending else 0
+        n1, n2 = I - c + extra, T + 7
+        blob = stream_bytes(snd, bytes_for_frames(n1) + bytes_for_frames(n2))
+        b1 = bytes_for_frames(n1)
+        if b1:
+            ch.write(blob[:b1])
+        w.settle()
+        if dr.sent != I - c:
+            viol.append(('credit_top', dict(sig, what='initial_credits_not_usable', initial=I), f'with {I} initial credits and {n1} frames to send, {dr.sent} frames were sent (expected {I - c})'))
+        at_grant = dr.sent
+        w.devices[rcv].send_l2cap_pdu(p['conns'][rcv].handle, wire.LE_SIG_CID, wire.encode_credit(0xE1, own_cid_of_receiver, g))
+        w.settle()
+        ch.write(blob[b1:])
+        w.settle()
+        usable = dr.sent - at_grant
+        if dr.granted != I + g:
+            viol.append(('harness_top', {'what': 'ledger'}, f'wire ledger counts {dr.granted} granted credits, expected {I}+{g}'))
+        if usable < T and not viol:
+            viol.append(
+                (
+                    'credit_top',
+                    dict(sig, what='granted_credits_not_usable', balance_after_grant=T),
+                    f'sender holding {c} credits (initial {I}, {I - c} frames sent{", data queued" if pending else ", idle"}) was granted {g}: balance {T} <= 65535, '
+                    f'but it then sent only {usable} of {n2 + extra} queued frames (wire ledger still {dr.granted - dr.sent})',
+                )
+            )
+        want = blob[: len(dr.stream)]
+        if bytes(dr.stream) != want:
+            viol.append(('wire_stream_mismatch', dict(sig, what='wire_bytes_differ', phase='top'), 'bytes carried by the data frames differ from the bytes written'))
+        for check, sg, msg in mon.problems:
+            viol.append((check, dict(sig, **sg, phase='top'), msg))
+        for msg, exc in w.loop.collect_exceptions():
+            viol.append(('exception', dict(sig, what='exception', exc=exc.split('(')[0], phase='top'), f'{msg}: {exc}'))
+        return {'viol': viol, 'frames': dr.sent, 'usable': usable}
+
+
+def top_cases(quick):
+    """Every (balance c, grant g) with c in TOP_BALANCES and c + g in TOP_TOTALS, g >= 1.
+    (a) c is what the peer granted initially (c == 0: one initial credit, spent; also with data queued);
+    (b) c is what is left of 65533 / 65534 / 65535 initial credits after sending the difference.
+    thorough: (a) and (b) for both channel kinds and both sender roles.  quick: (a) for LE CoC in both roles, and on
+    the enhanced server for c in {0, 32767}; (b) from 65535 on the LE CoC client for c in {0, 32767, 65534}."""
+    out = []
+    pairs = [(c, t - c) for c in TOP_BALANCES for t in TOP_TOTALS if t - c >= 1]
+    for kind in ('coc', 'enh1'):
+        for snd in (0, 1):
+            for c, g in pairs:
+                if not quick or kind == 'coc' or (snd == 1 and c in (0, 32767)):
+                    out.append({'kind': kind, 'sender': snd, 'I': max(c, 1), 'c': c, 'g': g})
+                    if c == 0:
+                        out.append({'kind': kind, 'sender': snd, 'I': 1, 'c': 0, 'g': g, 'pending': True})
+                for I in (65533, 65534, 65535):
+                    if quick and not (I == 65535 and (kind, snd) == ('coc', 0) and c in (0, 32767, 65534)):
+                        continue
+                    if I > c and I != max(c, 1):
+                        out.append({'kind': kind, 'sender': snd, 'I': I, 'c': c, 'g': g})
+    return out
+
+
+def w_top(chunk):
+    st = core.Stats('top')
+    for case in chunk:
+        r = run_top(case)
+        st.case((case['kind'], case['sender'], case['I'], case['c'], case['g'], case.get('pending', False)), sample={'case': case, 'frames_sent': r['frames'], 'usable_after_grant': r['usable']})
+        st.count('data_frames', r['frames'])
+        st.add('balance_x_total', (case['c'], case['c'] + case['g']))
+        st.add('initial_credits', case['I'])
+        for check, sg, msg in r['viol']:
+            st.violation(check, sg, msg, {'top': case})
+    return st
+
+
+def run_long(case):
+    """One end-to-end transfer, both directions, initial credits 65535 on both sides, one-frame SDUs: 32768 frames,
+    wait until everything is quiet (the half-way credit return of 32768 reaches an idle sender holding 32767), then
+    32768 + 300 more."""
+    kind = case['kind']
+    t = (23, 64, 65535)
+    sig = {'kind': 'le_coc' if kind == 'coc' else 'enhanced', 'phase': 'long_transfer'}
+    viol = []
+    n1, n2 = 32768, 32768 + 300
+    with open_pair(kind, t, t, 251) as p:
+        w, mon = p['w'], p['mon']
+        got = [bytearray(), bytearray()]
+        p['chans'][0].sink = got[1].__iadd__  # client's sink receives what side 1 wrote
+        p['chans'][1].sink = got[0].__iadd__
+        blobs = [stream_bytes(s_, 23 * (n1 + n2)) for s_ in (0, 1)]
+        mch = mon.channel(0, 0)
+
+        def burst(lo, hi):
+            for s_ in (0, 1):
+                ch, blob = p['chans'][s_], blobs[s_]
+                for i in range(lo, hi):
+                    ch.write(blob[23 * i : 23 * i + 23])
+
+        burst(0, n1)
+        w.loop.run_quiescent(max_steps=20000000)
+        half = [(mch.dirs[s_].sent, list(mch.dirs[s_].credit_frames)) for s_ in (0, 1)]
+        burst(n1, n1 + n2)
+        w.loop.run_quiescent(max_steps=20000000)
+        drains = [w.loop.create_task(p['chans'][s_].drain()) for s_ in (0, 1)]
+        w.loop.run_quiescent(max_steps=100000)
+        for s_ in (0, 1):
+            dr = mch.dirs[s_]
+            lsig = dict(sig, dir='c2s' if s_ == 0 else 's2c')
+            if bytes(dr.stream) != blobs[s_][: len(dr.stream)]:
+                viol.append(('wire_stream_mismatch', dict(lsig, what='wire_bytes_differ'), 'bytes carried by the data frames differ from the bytes written'))
+            if bytes(got[s_]) != bytes(dr.stream[: dr.complete_len]):
+                viol.append(('stream_mismatch', dict(lsig, what='sink_differs_from_wire'), f'sink got {len(got[s_])} bytes, completed SDUs on the wire carry {dr.complete_len}'))
+            if len(got[s_]) < len(blobs[s_]) or not drains[s_].done():
+                ledger = dr.granted - dr.sent
+                cause = 'sender_idle_with_credits' if dr.sent < n1 + n2 and ledger > 0 else ('sender_out_of_credits' if dr.sent < n1 + n2 else ('receiver_did_not_deliver' if len(got[s_]) < len(dr.stream) else 'drain_pending'))
+                viol.append(
+                    (
+                        'no_progress',
+                        dict(lsig, what='transfer_incomplete', cause=cause),
+                        f'{n1 + n2} one-frame SDUs written, {dr.sent} frames on the wire, {len(got[s_]) // 23} SDUs at the sink; wire ledger of the sender {ledger}; '
+                        f'credit frames delivered {dr.credit_frames[:4]}; at the pause: {half[s_]}',
+                    )
+                )
+        for check, sg, msg in mon.problems:
+            viol.append((check, dict(sig, **sg), msg))
+        for msg, exc in w.loop.collect_exceptions():
+            viol.append(('exception', dict(sig, what='exception', exc=exc.split('(')[0]), f'{msg}: {exc}'))
+        return {'viol': viol, 'half': half, 'frames': [mch.dirs[s_].sent for s_ in (0, 1)], 'credit_frames': [list(mch.dirs[s_].credit_frames) for s_ in (0, 1)]}
+
+
+def w_top_or_long(item):
+    return w_long(item[1]) if item[0] == 'long' else w_top(item[1])
+
+
+def w_long(case):
+    st = core.Stats('long')
+    r = run_long(case)
+    st.case(case['kind'], sample={'case': case, 'frames': r['frames'], 'credit_frames': r['credit_frames'], 'at_pause': r['half']})
+    st.count('data_frames', sum(r['frames']))
+    for s_ in (0, 1):
+        if r['half'][s_] == (32768, [32768]):
+            st.count('lanes_idle_holding_32767_when_32768_credits_arrived')
+    for check, sg, msg in r['viol']:
+        st.violation(check, sg, msg, {'long': case})
+    return st
+
+
+# ---------------------------------------------------------------------------
 # the parameter space
 # ---------------------------------------------------------------------------
 def param_configs(k):
@@ -513,6 +724,18 @@ def run(ctx: core.Context) -> int:
         for r in core.pmap(w_params, core.split(cases, ctx.jobs * 8), ctx.jobs):
             st.merge(r)
         ctx.log('params:', st.summary())
+    if not only or 'top' in only or 'long' in only:
+        # one pool pass: the two long transfers (~13 s each) run beside the credit-arithmetic cases
+        items = []
+        if not only or 'long' in only:
+            items += [('long', {'kind': 'coc'}), ('long', {'kind': 'enh1'})]
+        if not only or 'top' in only:
+            items += [('top', ch) for ch in core.split(top_cases(quick), ctx.jobs * 3)]
+        for (name, _), r in zip(items, core.pmap(w_top_or_long, items, ctx.jobs)):
+            ctx.sub(name).merge(r)
+        for name in ('top', 'long'):
+            if name in ctx.subs:
+                ctx.log(f'{name}:', ctx.sub(name).summary())
     if not only or 'sched' in only:
         st = ctx.sub('sched')
         items = [('sched', c, b, 20000) for c, b in sched_configs(quick)]
@@ -537,7 +760,10 @@ def run(ctx: core.Context) -> int:
             '{1, mps-3, mps-2, mps-1, mps, mtu-1, mtu, mtu+1, 2mtu+1} (receiver\'s mtu/mps) in both directions at once, x write style (yield / burst / drain '
             'between writes); distinct = (kind, shim, parameters, write sizes, style). sched: credit-starved transfers, every order-preserving delivery delay '
             'with <= d deviations during the transfer. early: the server writes from its connection handler, schedules with <= d deviations from the '
-            'connection request on; distinct = (schedule prefix, choice fingerprints); outcomes = distinct wire traces.'
+            'connection request on; distinct = (schedule prefix, choice fingerprints); outcomes = distinct wire traces. top: every (balance c, grant g), '
+            'c in {0,1,2,32766,32767,32768,65533,65534,65535}, c+g in {65533,65534,65535}, reached from initial credits c or from 65533..65535, per channel '
+            'kind and sender role; the grant is an injected LE Flow Control Credit packet on the real receive path, the frames the sender then emits are '
+            'counted on the wire. long: 32768 one-frame SDUs, pause, 33068 more, both directions, initial credits 65535.'
         ),
         assumptions=[
             'both ends are bumble; the CID shim only renames identifiers',
@@ -549,7 +775,11 @@ def run(ctx: core.Context) -> int:
 
 def replay(v: core.Violation):
     c = v.case
-    if 'prefix' in c:
+    if 'top' in c:
+        res = run_top(c['top'])
+    elif 'long' in c:
+        res = run_long(c['long'])
+    elif 'prefix' in c:
         res = run_case(c['params'], prefix=c['prefix'], fp=None)
     else:
         res = run_case(c['case'])
